@@ -304,6 +304,40 @@ func TestVerifC07(t *testing.T) {
 				r.EvalN(pn+"|"+c.class(), n+1)
 			})
 
+			// (1a) AEADs of different tag and nonce sizes derived from ONE Block, used, dropped and used again in all orders:
+			// each opens exactly the messages of its own parameters
+			lifetimeHistories(r, rng, pn, hk.N(4, 24), false, false, true)
+			{
+				key := rng.Bytes(16)
+				blk, _ := NewCipher(key)
+				g := ref.NewGCM(key)
+				if blk != nil {
+					for round := 0; round < hk.N(6, 40); round++ {
+						tags := rng.Perm(5)
+						for _, ti := range tags {
+							tag := 12 + ti
+							a, err := cipher.NewGCMWithTagSize(blk, tag)
+							if err != nil {
+								r.Violation("cannot-construct-aead:"+pn, hk.D{"tag": tag, "err": err.Error()})
+								continue
+							}
+							nonce, aad, pt := rng.Bytes(12), rng.Bytes(rng.Intn(30)), rng.Bytes(rng.Intn(80))
+							sealed := g.Seal(nonce, pt, aad, tag)
+							got, oerr := a.Open(nil, nonce, sealed, aad)
+							if a.Overhead() != tag || oerr != nil || !bytes.Equal(got, pt) {
+								r.Violation("authentic-message-rejected:sibling-aeads-of-one-block:"+pn, hk.D{"key": hk.Hex(key), "tag": tag, "overhead_reported": a.Overhead(), "err": fmt.Sprint(oerr), "order_of_tag_sizes": fmt.Sprint(tags)})
+							}
+							// a message sealed for ANOTHER tag size (truncated / longer tag) must not open
+							other := 12 + (ti+1)%5
+							if _, e2 := a.Open(nil, nonce, g.Seal(nonce, pt, aad, other), aad); e2 == nil {
+								r.Violation("forgery-accepted:message-of-another-tag-size:"+pn, hk.D{"key": hk.Hex(key), "aead_tag": tag, "message_tag": other})
+							}
+						}
+						r.Eval("sibling-aeads:" + pn)
+					}
+				}
+			}
+
 			// (1b) ONE AEAD object serving many goroutines that open (authentic and forged messages mixed): every
 			// authentic message must come back, every forgery must be refused - an AEAD is not a one-caller object
 			{
